@@ -10,6 +10,10 @@ VERIF = os.path.dirname(HERE)
 # (harness name, needs libompl, sanitizer)
 HARNESSES = [
     ("heap", False, "asan"),
+    ("planners", True, None),
+    ("solset", True, "asan"),
+    ("motion", True, "asan"),
+    ("bounds", True, None),
 ]
 
 HOOK_COMMITS = []
@@ -26,6 +30,29 @@ CHECKS = {
         technique="TLA+ implementation-shaped spec + TLC; state-graph scenario replay; TLC trace validation",
         design="3/C11"),
 }
+
+CHECKS["C05"] = dict(
+    level="model_checking",
+    text="TLC enumerates every segment count n <= 10 (14 thorough) and EVERY validity predicate on the n subdivision "
+         "points as initial states of step-machine transcriptions of both checkMotion forms and of the state-list "
+         "bisection, checks them against the contract (verdict = all points valid, last-valid index, counters, each point "
+         "visited once) and emits each case with its expectation; every case is replayed exactly on the real validators "
+         "(discrete on R^1/SO(2) seam/SE(2)/weighted compound, Dubins, Reeds-Shepp, Dubins3D) through 17 bindings; "
+         "curved Dubins/Reeds-Shepp motions are recorded and validated by TLC against the contract.",
+    note="Trusted: TLC, the index-recovering validity checker of the harness, StateSpace::interpolate on straight lattice "
+         "motions (deviation measured <= 3e-14). Curved motions: verdict agreement and last-valid contract only.",
+    technique="TLA+ step-machine spec exhaustive over predicates (TLC) + exact case replay + TLC trace validation",
+    design="3/C05")
+CHECKS["C08"] = dict(
+    level="exploration",
+    text="TLA+ transcriptions of enforceBounds/satisfiesBounds on exact lattices (36 bound settings incl. zero-width, huge, "
+         "negative, seam, overflow) are checked by TLC for in-bounds result, no-op in bounds, idempotence, and every input is "
+         "replayed on the real spaces; the attempt loops of all six valid-state samplers are TLA+ state machines whose every "
+         "valid/invalid outcome script is replayed on the real samplers through a scripted validity checker; recorded sampler "
+         "outputs (uniform/near/Gaussian, compound/subspace/wrapper) are validated by TLC against SamplerContract.",
+    note="Off the lattice only the laws are judged; seeds are sampled (50 quick / 500 thorough); RNG is not scripted.",
+    technique="TLA+ lattice model + TLC, model-generated case replay, scripted-validity replay of sampler state machines, TLC trace validation",
+    design="3/C06-C08")
 
 NOT_APPLICABLE = {
     "C14": "every clause is a floating-point relation over sqrt/atan2 on a pure function; no discrete state or exact "
